@@ -387,6 +387,9 @@ def handle (line0 : String) : String :=
   | ["acc", "sym", info, other, shndx] =>
     let s : Symbol := ⟨0, nat! shndx, nat! info, nat! other, 0, 0⟩
     s!"{showBool s.isUndefined},{s.stSymtype},{s.stBind},{s.stVis}"
+  | ["acc", "symf", name, shndx, info, other, value, size] =>
+    let s : Symbol := ⟨nat! name, nat! shndx, nat! info, nat! other, nat! value, nat! size⟩
+    s!"{showBool s.isUndefined},{s.stSymtype},{s.stBind},{s.stVis}"
   | ["ident", sp, hex] =>
     showOut (fun (r : Bool × Class × Nat × Nat) => s!"{showBool r.1},{showClass r.2.1},{r.2.2.1},{r.2.2.2}")
       (parseIdent (parseSpec sp) (sliceOfHex hex))
